@@ -16,6 +16,7 @@ import (
 	"time"
 
 	standardrules "github.com/attestantio/dirk/rules/standard"
+	"github.com/attestantio/dirk/util"
 	"github.com/attestantio/dirk/util/verifhook"
 	"github.com/rs/zerolog"
 	"github.com/attestantio/dirk/services/api/grpc/interceptors"
@@ -30,6 +31,7 @@ type Ent struct {
 	T    int    `json:"t,omitempty"`    // abstract target epoch
 	Slot int    `json:"slot,omitempty"` // abstract slot (proposals)
 	Root string `json:"root,omitempty"` // "A", "B", ... (distinguishes different messages)
+	TRoot string `json:"troot,omitempty"` // target root override (entries equal in everything but the target root)
 	Dom  string `json:"dom,omitempty"`  // per-entry domain class (overrides Op.Dom)
 	By   string `json:"by,omitempty"`   // per-entry addressing (overrides Op.By)
 	NK   int    `json:"nk,omitempty"`   // with By=="both": key index used for the *name* (K is the public key sent)
@@ -49,6 +51,8 @@ type Op struct {
 	Ops    []Op    `json:"ops,omitempty"`   // for Kind "par"
 	Sched  []Token `json:"sched,omitempty"` // for Kind "par": imposed schedule ("free" mode if Gate false)
 	Gate   bool    `json:"gate,omitempty"`
+	N      int     `json:"n,omitempty"` // for Kind "scatter": batch size
+	P      int     `json:"p,omitempty"` // for Kind "scatter": GOMAXPROCS
 }
 
 // Prior is a record written directly to the slashing database before the scenario starts.
@@ -437,7 +441,7 @@ func (r *Runner) runSign(ctx context.Context, st *Stack, b *Base, op Op) {
 		e := er.ent
 		switch op.Kind {
 		case "att", "atts":
-			roots[i] = SigningRoot(AttRoot(uint64(100+e.T), uint64(7), rootBytes(e.Root), r.cv(e.S), rootBytes("s"+e.Root), r.cv(e.T), rootBytes("t"+e.Root)), er.domain)
+			roots[i] = SigningRoot(AttRoot(uint64(100+e.T), uint64(7), rootBytes(e.Root), r.cv(e.S), rootBytes("s"+e.Root), r.cv(e.T), rootBytes(tRootName(e))), er.domain)
 		case "prop":
 			roots[i] = SigningRoot(HeaderRoot(r.cv(e.Slot), 11, rootBytes("p"+e.Root), rootBytes("q"+e.Root), rootBytes(e.Root)), er.domain)
 		default:
@@ -448,7 +452,7 @@ func (r *Runner) runSign(ctx context.Context, st *Stack, b *Base, op Op) {
 		e := er.ent
 		return &pb.AttestationData{Slot: uint64(100 + e.T), CommitteeIndex: 7, BeaconBlockRoot: rootBytes(e.Root),
 			Source: &pb.Checkpoint{Epoch: r.cv(e.S), Root: rootBytes("s" + e.Root)},
-			Target: &pb.Checkpoint{Epoch: r.cv(e.T), Root: rootBytes("t" + e.Root)}}
+			Target: &pb.Checkpoint{Epoch: r.cv(e.T), Root: rootBytes(tRootName(e))}}
 	}
 	switch op.Kind {
 	case "att":
@@ -589,6 +593,13 @@ func (r *Runner) runSign(ctx context.Context, st *Stack, b *Base, op Op) {
 	r.Log.Emit(Ev{"ev": "Respond", "r": op.ID, "kind": op.Kind, "n": len(ers), "res": states, "sig": hasSig, "sigok": sigOK})
 }
 
+func tRootName(e Ent) string {
+	if e.TRoot != "" {
+		return e.TRoot
+	}
+	return "t" + e.Root
+}
+
 func relKind(k string) string {
 	switch k {
 	case "att", "atts":
@@ -665,6 +676,8 @@ func (r *Runner) Run(ctx context.Context, sc *Scenario) error {
 			} else {
 				r.Log.Emit(Ev{"ev": "ExportFail", "r": op.ID, "err": err.Error()})
 			}
+		case "scatter":
+			r.runScatter(op)
 		case "par":
 			r.runPar(ctx, st, b, op)
 		default:
@@ -751,4 +764,24 @@ func (r *Runner) runPar(ctx context.Context, st *Stack, b *Base, op Op) {
 		r.Log.Emit(Ev{"ev": "Watchdog", "r": op.ID, "goroutines_in_mutex_lock": inLock})
 		os.Exit(3)
 	}
+}
+
+// runScatter runs the real util.Scatter for a batch of op.N items under GOMAXPROCS op.P and logs the extents.
+func (r *Runner) runScatter(op Op) {
+	old := runtime.GOMAXPROCS(op.P)
+	defer runtime.GOMAXPROCS(old)
+	var mu sync.Mutex
+	ext := [][2]int{}
+	_, err := util.Scatter(op.N, func(offset int, entries int, _ *sync.RWMutex) (any, error) {
+		mu.Lock()
+		ext = append(ext, [2]int{offset, entries})
+		mu.Unlock()
+		return nil, nil
+	})
+	sort.Slice(ext, func(i, j int) bool { return ext[i][0] < ext[j][0] })
+	ev := Ev{"ev": "Scatter", "n": op.N, "p": op.P, "extents": ext}
+	if err != nil {
+		ev["err"] = err.Error()
+	}
+	r.Log.Emit(ev)
 }
